@@ -1,10 +1,44 @@
 """Search support for C18: random interaction trees - with shared sub-trees (one function reached from several places),
 run-time-argument nodes and loads - are given to the REAL dds._plotting._structure; reports cycles and returns the graphs
-of a sample for comparison with the Coq model.  stdin: {"n": int, "seed": int, "sample": int}"""
+of a sample for comparison with the Coq model.  _structure is called the way dds.eval's draw_graph calls it: the parameters
+it has beyond (fis, indirect_refs) are given, by name, what the evaluation has for them (call_structure); the tables
+handed to it are the evaluation's own: it must leave them as they are (reported as "mutated").  A second batch of trees
+(generator of its own), in which a path may be reached again under another signature (F23), is only checked for that.
+stdin: {"n": int, "seed": int, "sample": int}"""
 import json
 import random
 import sys
 from collections import OrderedDict
+
+
+def evaluation_tables(fun, root, given=()):
+    """What dds.eval has at hand for the parameters of fun (_structure / build_graph / draw_graph) beyond the ones in
+    given: {name: value}.  Raises LookupError for a required parameter this driver knows nothing about."""
+    import inspect
+    from dds.structures_utils import FunctionInteractionsUtils
+    known = {"store_paths": lambda: FunctionInteractionsUtils.all_store_paths(root), "requested_paths": lambda: FunctionInteractionsUtils.all_store_paths(root),
+             "present_blobs": lambda: None}
+    out = {}
+    for name, p in inspect.signature(fun).parameters.items():
+        if name in given or p.kind in (p.VAR_POSITIONAL, p.VAR_KEYWORD):
+            continue
+        if name in known:
+            out[name] = known[name]()
+        elif p.default is p.empty:
+            raise LookupError(f"{fun.__name__} has a required parameter '{name}' that this driver cannot provide")
+    return out
+
+
+def changed_tables(before, after):
+    """Differences between the tables given to the export and what they are afterwards: [[table, path, before, after]]."""
+    out = []
+    for name in before:
+        a, b = before[name], after[name]
+        if isinstance(a, dict) and dict(a) != dict(b):
+            out += [[name, p, a.get(p), b.get(p)] for p in sorted(set(a) | set(b), key=str) if a.get(p) != b.get(p)]
+        elif isinstance(a, dict) and list(a) != list(b):
+            out.append([name, "(order of the entries)", list(a)[:6], list(b)[:6]])
+    return out
 
 
 def main():
@@ -48,14 +82,29 @@ def main():
 
     def dump(x):
         return [x.fun_return_sig, x.store_path, len(x.arg_input.named_args), list(x.indirect_deps), [dump(c) for c in x.parsed_body]]
-    out = {"trees": 0, "cyclic": [], "errors": [], "sample": [], "shared": 0}
+    import copy
+    out = {"trees": 0, "cyclic": [], "errors": [], "sample": [], "shared": 0, "mutated": [], "trees_two_signatures": 0}
+
+    def call_structure(root, refs):
+        """The real _structure on the tables of an evaluation; records the tree when a table is not left as it was."""
+        tables = dict(evaluation_tables(_structure, root, given=("fis", "indirect_refs")), indirect_refs=dict(refs))
+        before = copy.deepcopy(tables)
+        try:
+            return _structure(root, tables["indirect_refs"], **{k: v for k, v in tables.items() if k != "indirect_refs"})
+        finally:
+            ch = changed_tables(before, tables)
+            if ch and len(out["mutated"]) < 3:
+                out["mutated"].append({"tree": dump(root), "changed": ch[:6]})
     for it in range(payload["n"]):
         pool, counter = [], [0]
         root = gen(rng.choice([2, 3, 4]), pool, counter)
         refs = {n.store_path: n.fun_return_sig for n in pool if n.store_path}
         out["trees"] += 1
         try:
-            g = _structure(root, dict(refs))
+            g = call_structure(root, refs)
+        except LookupError as e:
+            out["unsupported"] = str(e)
+            break
         except BaseException as e:  # noqa
             if len(out["errors"]) < 3:
                 out["errors"].append({"tree": dump(root), "error": type(e).__name__ + ": " + str(e)[:100]})
@@ -66,6 +115,38 @@ def main():
         if it < payload.get("sample", 0):
             out["sample"].append({"tree": dump(root), "refs": sorted(refs.items()), "nodes": sorted(str(n.path) for n in g.fnodes),
                                   "edges": sorted([str(e.from_path), str(e.to_path), {1: "solid", 2: "dotted", 3: "dashed"}[int(e.edge_type)]] for e in g.deps)})
+    # second batch: a kept node may take the path of an earlier kept node, under its own signature (one path analysed under
+    # several signatures); only: the tables of the evaluation are left as they are
+    rng = random.Random(payload["seed"] * 31 + 7)
+    for it in range(0 if "unsupported" in out else payload["n"] // 4):
+        pool, counter = [], [0]
+        root = gen(rng.choice([2, 3]), pool, counter)
+        kept = [n for n in pool if n.store_path]
+        if len(kept) < 2:
+            continue
+        # rebuild the tree with some kept nodes renamed to the path of another kept node
+        ren = {}
+        for n in kept[1:]:
+            if rng.random() < 0.3:
+                ren[n.fun_return_sig] = rng.choice([m.store_path for m in kept if m is not n])
+        if not ren:
+            continue
+        memo = {}
+
+        def rebuild(x):
+            if x.fun_return_sig not in memo:
+                memo[x.fun_return_sig] = mk(x.fun_return_sig, ren.get(x.fun_return_sig, x.store_path), len(x.arg_input.named_args), [rebuild(c) for c in x.parsed_body], x.indirect_deps)
+            return memo[x.fun_return_sig]
+        root = rebuild(root)
+        out["trees_two_signatures"] += 1
+        refs = {}
+        for n in memo.values():
+            if n.store_path:
+                refs.setdefault(n.store_path, n.fun_return_sig)
+        try:
+            call_structure(root, refs)
+        except BaseException as e:  # noqa
+            pass        # (what the graph of such a tree is: F23)
     print("@@RESULT@@" + json.dumps(out))
 
 
